@@ -33,6 +33,9 @@ pub trait MX: ML<S> + Copy {
     fn row_slice(&self) -> Option<Vec<S>>;
     fn col_slice(&self) -> Option<Vec<S>>;
     fn gl_t(&self) -> bool;
+    fn gl_const() -> bool;
+    /// does reading / writing element (i, j) panic?
+    fn idx_panics(&self, i: usize, j: usize) -> (bool, bool);
     fn show(&self) -> String;
     fn show_spec(&self) -> String;
     fn dflt() -> Self;
@@ -61,6 +64,13 @@ macro_rules! mx { ($M:ident $O:ident $n:tt rows=$rows:tt ($($i:tt)+) new($p:iden
     fn row_slice(&self) -> Option<Vec<S>> { mx!(@rs $rows self) }
     fn col_slice(&self) -> Option<Vec<S>> { mx!(@cs $rows self) }
     fn gl_t(&self) -> bool { self.gl_should_transpose() }
+    fn gl_const() -> bool { Self::GL_SHOULD_TRANSPOSE }
+    fn idx_panics(&self, i: usize, j: usize) -> (bool, bool) {
+        let m = *self;
+        let rd = catch(|| m[(i, j)]).is_err();
+        let wr = catch(|| { let mut w = m; w[(i, j)] = zero(); w }).is_err();
+        (rd, wr)
+    }
     fn show(&self) -> String { format!("{}", self) }
     fn show_spec(&self) -> String { format!("{:+9.3}", self) }
     fn dflt() -> Self { $M::default() }
@@ -139,7 +149,16 @@ fn views<R: MX, C: MX>() {
     let gl = |flat: &[S], transpose: bool| -> Abs { (0..n).map(|i| (0..n).map(|j| if transpose { flat[i * n + j] } else { flat[j * n + i] }).collect()).collect() };
     let (gr, gc) = (gl(&rs, r.gl_t()), gl(&cs, c.gl_t()));
     goal("slice + gl_should_transpose denote the matrix", and((0..n).flat_map(|i| (0..n).flat_map(|j| vec![eq(gr[i][j], a[i][j]), eq(gc[i][j], a[i][j])]).collect::<Vec<_>>()).collect()));
-    // Display does not depend on the layout and follows the documented format (syntactic comparison)
+    // the associated constant says the same as the method, in both layouts
+    goal("GL_SHOULD_TRANSPOSE constant = gl_should_transpose()", lit(R::gl_const() == r.gl_t() && C::gl_const() == c.gl_t()));
+    // (i, j) outside the matrix is refused in both layouts, on reads and on writes, whichever coordinate is out of range
+    let mut bounds_ok = true;
+    for (i, j) in [(n, 0), (0, n), (n, n - 1), (n - 1, n), (n + 1, 0), (0, n + 1)] {
+        let ((rr, rw), (cr, cw)) = (r.idx_panics(i, j), c.idx_panics(i, j));
+        bounds_ok &= rr && rw && cr && cw;
+    }
+    goal("an out-of-range (i, j) panics in both layouts (read and write)", lit(bounds_ok));
+        // Display does not depend on the layout and follows the documented format (syntactic comparison)
     let (sr, sc) = (r.show(), c.show());
     let want = format!("({} )", a.iter().map(|row| row.iter().map(|x| format!(" {}", x)).collect::<String>()).collect::<Vec<_>>().join("\n "));
     goal("Display is layout-independent", lit(sr == sc));
